@@ -51,7 +51,7 @@ class ConnCtx(FsmCtx):
             choices.append(("cdone", cfg["w_cdone"]))
         if due:
             choices.append(("timer", cfg["w_timer"]))
-            choices.append(("advance", cfg["w_timer"] * 0.3))
+        choices.append(("advance", cfg["w_timer"] * 0.3))
         choices.append(("stop", cfg["w_rest"]))
         choices.append(("start", cfg["w_rest"]))
         kind = rng.weighted(choices)
@@ -208,8 +208,8 @@ class StopCtx(FsmCtx):
             if closing:
                 ch += [("cdone", 2)]
             if due:
-                ch += [("timer", 3), ("advance", 1)]
-            ch += [("read", 0.5), ("stop_again", 0.2)]
+                ch += [("timer", 3)]
+            ch += [("advance", 1), ("read", 0.5), ("stop_again", 0.2)]
             kind = rng.weighted(ch)
             if kind == "conn_ok":
                 return ["conn_ok", rng.pick(pend)]
@@ -608,6 +608,7 @@ class StatsCtx(FsmCtx):
         FsmCtx.__init__(self, cfg, tier)
         self.rx_counts = {}      # cid -> {key: n} frames of >= minimum length handed to the agent while it was reading
         self.rx_pending = {}
+        self.tx_dropped = {}
         self.final_done = False
 
     def choose(self, rng):
@@ -623,6 +624,18 @@ class StatsCtx(FsmCtx):
         quiescent = not [c for c in w.reactor.due() if c.time <= w.now()]
         if quiescent and rng.chance(self.cfg["p_stat"]):
             return ["rest", "GET", URL + "statistic", "ok"]
+        if self.cfg.get("handler_faults") and rng.chance(0.04):
+            return ["hfail", rng.randrange(1, 4)]
+        if w.state() == "ESTABLISHED" and rng.chance(self.cfg.get("p_rest_send", 0)):
+            # operator-originated messages: sent counters must follow them too
+            from sim.profiles import restapi
+            if rng.chance(0.5):
+                body = restapi.RestCtx.body_for(self, rng, "send/update")
+                return ["rest", "POST", URL + "send/update", "ok", body]
+            body = {"afi": rng.pick([1, 1, 2]), "safi": rng.pick([1, 1, 128])}
+            if rng.chance(0.6):
+                body["res"] = rng.pick([0, 1, 2, 255, 256, -1, None, "x", 1.5])
+            return ["rest", "POST", URL + "send/route-refresh", "ok", body]
         if self.cfg["hostile"] and rng.chance(0.25):
             readable = [k for k, c in enumerate(w.live_conns()) if c.readable()]
             if readable:
@@ -634,6 +647,13 @@ class StatsCtx(FsmCtx):
         w = self.world
         # account delivered frames (one frame per chunk in this profile)
         for e in w.log[pos:]:
+            if e[2] == "write_dropped":
+                # a deferred (REST) write that found its connection already gone: in flight at close
+                d = self.tx_dropped.setdefault(e[3], {})
+                for f in rp.deframe(bytes.fromhex(e[4]))[0]:
+                    if not f.error:
+                        d[STAT_KEYS[f.type]] = d.get(STAT_KEYS[f.type], 0) + 1
+                        self.stats["rest_send_lost_in_flight_at_close"] += 1
             if e[2] == "rx":
                 cid = e[3]
                 buf = self.rx_pending.get(cid, b"") + bytes.fromhex(e[4])
@@ -672,6 +692,9 @@ class StatsCtx(FsmCtx):
         for key in ("Opens", "Updates", "Notifications", "Keepalives", "RouteRefresh"):
             got = (js.get("send") or {}).get(key)
             want = sent.get(key, 0)
+            lost = self.tx_dropped.get(cid, {}).get(key, 0)
+            if got is not None and want < got <= want + lost:
+                continue        # counted at request time, the connection ended before the deferred write ran
             if got != want:
                 raise Violation("C18", "sent", "%s/reported-%s-wire-%s" % (key, cmp3(got, want), "n"),
                                 "statistic says %s %s sent on the current connection (#%d); its write log holds %d (%s)"
@@ -702,10 +725,12 @@ class StatsProfile(FsmProfile):
     runs = {"quick": 30000, "thorough": 1000000}
     ctx_class = StatsCtx
     rule = ("one run = a C01-style trace (all event orders incl. error paths; in half of the runs also hostile/mutated frames, "
-            "one frame per chunk) with GET statistic at random quiescent points and at the end; each answer is compared with "
+            "one frame per chunk; in some runs operator sends via REST send/update and send/route-refresh with valid and "
+            "invalid 'res' values, and application-handler callbacks that raise ENOSPC) with GET statistic at random "
+            "quiescent points and at the end; each answer is compared with "
             "the frames by type in the current connection's write log and delivered stream; non-trivial = reached OpenSent; "
             "distinct = distinct cell sequence")
-    probes = ["stat_comparisons", "nonzero_sent_Opens", "nonzero_sent_Keepalives", "nonzero_sent_Notifications",
+    probes = ["op:hfail", "nonzero_sent_Updates", "nonzero_sent_RouteRefresh", "stat_comparisons", "nonzero_sent_Opens", "nonzero_sent_Keepalives", "nonzero_sent_Notifications",
               "nonzero_recv_Opens", "nonzero_recv_Keepalives", "nonzero_recv_Updates", "nonzero_recv_Notifications",
               "nonzero_recv_RouteRefresh"]
 
@@ -713,6 +738,8 @@ class StatsProfile(FsmProfile):
         cfg = swarm_config(rng, idx)
         cfg["p_stat"] = rng.pick([0.05, 0.15, 0.3])
         cfg["hostile"] = bool(idx % 2)
+        cfg["handler_faults"] = rng.chance(0.3)
+        cfg["p_rest_send"] = rng.pick([0, 0.1, 0.3])
         return cfg
 
 
